@@ -85,6 +85,10 @@ func ruleText(r orchRule) string {
 		b.WriteString("return 1 / 0\n")
 	case "retafterfail": // never reaches the return
 		b.WriteString("zz = 1 / 0\nreturn 5\n")
+	case "straybreak": // break / continue outside any loop: the rule fails without having returned
+		b.WriteString("if true {\n break\n}\nreturn 6\n")
+	case "straycont":
+		b.WriteString("continue\n")
 	}
 	b.WriteString("end\n")
 	return b.String()
@@ -115,13 +119,17 @@ func genOrchCase(r *rng, i int, methods []string) *orchCase {
 			ru.Beh = "bare"
 		case p < 75:
 			ru.Beh = "fail"
-		case p < 88:
+		case p < 86:
 			ru.Beh = "failret"
-		default:
+		case p < 93:
 			ru.Beh = "retafterfail"
+		case p < 97:
+			ru.Beh = "straybreak"
+		default:
+			ru.Beh = "straycont"
 		}
 		// fewer failures in half of the cases so that later stages are reached
-		if r.chance(1, 2) && (ru.Beh == "fail" || ru.Beh == "failret" || ru.Beh == "retafterfail") && r.chance(2, 3) {
+		if r.chance(1, 2) && (ru.Beh == "fail" || ru.Beh == "failret" || ru.Beh == "retafterfail" || ru.Beh == "straybreak" || ru.Beh == "straycont") && r.chance(2, 3) {
 			ru.Beh = "ret"
 		}
 		switch ru.Beh {
@@ -134,7 +142,7 @@ func genOrchCase(r *rng, i int, methods []string) *orchCase {
 			ru.Fails = true
 		case "failret":
 			ru.Fails = true // flag: see the P-6 discussion in DESIGN.md; the spec says no entry
-		case "retafterfail":
+		case "retafterfail", "straybreak", "straycont":
 			ru.Fails = true
 		}
 		if strings.Contains(c.Method, "StopTag") && r.chance(1, 4) {
